@@ -70,10 +70,15 @@ func c07Exec(cs fw.Case) *fw.Fail {
 		src := c.Src
 		n := len(src)
 		const exp = "ParseFile under this partition = Parse of the whole input (same success, byte-identical dump, same diagnostics)"
-		if c.Mode == "fixed" {
+		if c.Mode == "fixed" || c.Mode == "bigpages" {
 			// larger inputs (many lines, several pages): fixed read sizes
 			want := obsWhole(src)
-			for _, k := range []int{1, 7, 64, 100, 1000, 4095, 4096, 4097} {
+			ks := []int{1, 7, 64, 100, 1000, 4095, 4096, 4097}
+			if c.Mode == "bigpages" {
+				// inputs of more than a mebibyte: page-sized and larger reads only
+				ks = []int{4096, 4097, 65536, 1 << 20}
+			}
+			for _, k := range ks {
 				var sizes []int
 				for i := 0; i < n; i += k {
 					sizes = append(sizes, k)
@@ -245,7 +250,7 @@ func init() {
 		ID:    "C07",
 		Level: "model_checking",
 		Rule: "inputs: the hand-written corpus programs up to 60 bytes, every token kind alone and every ordered pair of 54 token/separator/failure spellings (two-character operators, escapes, comments, CR LF, 2-, 3- and 4-byte characters in strings, in comments and bare, U+0085/U+00A0 as whitespace, every lexical failure kind), bare and after `print `. " +
-			"For each input EVERY partition into reads is enumerated: all 2^(n-1) compositions for n<=13 (thorough 16) plus zero-byte reads at every cut, every partition also with its last piece delivered together with io.EOF; all partitions with <=2 (thorough 3) cut points for longer inputs, each also with a zero-byte read; hundreds of zero-byte reads scattered over inputs of 100-600 bytes; long inputs (65 to 2288 lines, several pages, errors on late lines) under 8 fixed read sizes; and the real 4096-byte pages with the page boundary at every offset 0..n of the input (two kinds of padding). " +
+			"For each input EVERY partition into reads is enumerated: all 2^(n-1) compositions for n<=13 (thorough 16) plus zero-byte reads at every cut, every partition also with its last piece delivered together with io.EOF; all partitions with <=2 (thorough 3) cut points for longer inputs, each also with a zero-byte read; hundreds of zero-byte reads scattered over inputs of 100-600 bytes; long inputs (65 to 2288 lines, several pages, errors on late lines) under 8 fixed read sizes; single lexical items of more than a mebibyte (string, comment, blanks, line ends, identifier) in page-sized reads; and the real 4096-byte pages with the page boundary at every offset 0..n of the input (two kinds of padding). " +
 			"Oracle: ParseFile(scripted reader) = Parse(whole): same success, byte-identical dump, identical diagnostics. counters.partitions counts ParseFile executions.",
 		Subs:           []*fw.Sub{subC07},
 		BudgetQuick:    100,
@@ -292,6 +297,10 @@ func init() {
 					c.Do(subC07, &c07Case{Src: sc.Src, Mode: "fixed"})
 					c.Do(subC07, &c07Case{Src: sc.Src + "print )\nvar\n", Mode: "fixed"})
 				}
+			}
+			// a single lexical item longer than a mebibyte (string literal, comment, run of blanks, run of line ends)
+			for _, item := range []string{`"` + strings.Repeat("s", 1200000) + `"`, "#" + strings.Repeat("c", 1200000) + "\n", strings.Repeat(" ", 1200000), strings.Repeat("\n", 1100000), strings.Repeat("i", 1100000)} {
+				c.Do(subC07, &c07Case{Src: "print 1\nprint " + item + " print 2\nprint )", Mode: "bigpages"})
 			}
 			for _, k := range []int{30, 64, 65, 66, 100, 200, 700} {
 				c.Do(subC07, &c07Case{Src: strings.Repeat("print 1 +\n", k) + "2\nprint )\n\nprint (\n", Mode: "fixed"})
